@@ -1355,6 +1355,78 @@ func (z *zoneEngine) call(s *zstate, c *ssa.Call, record bool) {
 				}
 				s.add(xl, rl, -xo-ylb)
 			}
+		case "min", "max":
+			// r = min(a1..an): r <= ai for every i, and for every term t, t - r <= max_i (t - ai);
+			// r = max(a1..an): r >= ai for every i, and for every term t, r - t <= max_i (ai - t).
+			if !isIntType(c.Type()) || len(c.Call.Args) == 0 {
+				return
+			}
+			isMin := b.Name() == "min"
+			r := zterm{v: c}
+			s.forget(r)
+			type lt struct {
+				t zterm
+				o int64
+			}
+			var args []lt
+			for _, a := range c.Call.Args {
+				t, o := z.lin(s, a)
+				s.touch(t)
+				args = append(args, lt{t, o})
+			}
+			var terms []zterm
+			for t := range s.terms {
+				terms = append(terms, t)
+			}
+			type pend struct {
+				a, b zterm
+				c    int64
+			}
+			var adds []pend
+			for _, t := range terms {
+				if t == r {
+					continue
+				}
+				worst := int64(-zInf)
+				for _, a := range args {
+					var bd int64
+					if isMin {
+						bd = s.bound(t, a.t) // t - a.t <= bd  ⇒  t - (a.t+a.o) <= bd - a.o
+						if bd < zInf {
+							bd -= a.o
+						}
+					} else {
+						bd = s.bound(a.t, t) // a.t - t <= bd ⇒ (a.t+a.o) - t <= bd + a.o
+						if bd < zInf {
+							bd += a.o
+						}
+					}
+					if bd >= zInf {
+						worst = zInf
+						break
+					}
+					if bd > worst {
+						worst = bd
+					}
+				}
+				if worst < zInf && worst > -zInf {
+					if isMin {
+						adds = append(adds, pend{t, r, worst})
+					} else {
+						adds = append(adds, pend{r, t, worst})
+					}
+				}
+			}
+			for _, a := range args {
+				if isMin {
+					adds = append(adds, pend{r, a.t, a.o}) // r <= a.t + a.o
+				} else {
+					adds = append(adds, pend{a.t, r, -a.o}) // a.t + a.o <= r
+				}
+			}
+			for _, a := range adds {
+				s.add(a.a, a.b, a.c)
+			}
 		}
 		return
 	}
